@@ -4,14 +4,60 @@
 use crate::engine::*;
 use crate::props;
 use serde::Serialize;
+use std::collections::BTreeMap;
+use std::sync::atomic::{AtomicU64, Ordering};
+use std::sync::Mutex;
+
+pub static EXECS: AtomicU64 = AtomicU64::new(0);
+pub static DECODED: AtomicU64 = AtomicU64::new(0);
+pub static NONTRIVIAL: AtomicU64 = AtomicU64::new(0);
+pub static KNOWN_HITS: AtomicU64 = AtomicU64::new(0);
+pub static HARNESS_ERRORS: AtomicU64 = AtomicU64::new(0);
+static CLASSES: Mutex<BTreeMap<String, u64>> = Mutex::new(BTreeMap::new());
+static SAMPLES: Mutex<Vec<String>> = Mutex::new(Vec::new());
+
+extern "C" fn write_stats() {
+    if let Ok(path) = std::env::var("VERIF_FUZZ_STATS") {
+        let classes = CLASSES.lock().map(|c| c.clone()).unwrap_or_default();
+        let samples = SAMPLES.lock().map(|c| c.clone()).unwrap_or_default();
+        let body = serde_json::json!({
+            "execs": EXECS.load(Ordering::Relaxed), "decoded": DECODED.load(Ordering::Relaxed),
+            "nontrivial": NONTRIVIAL.load(Ordering::Relaxed), "known_finding_hits": KNOWN_HITS.load(Ordering::Relaxed),
+            "harness_errors": HARNESS_ERRORS.load(Ordering::Relaxed), "classes": classes, "samples": samples,
+        });
+        let _ = std::fs::write(path, serde_json::to_vec_pretty(&body).unwrap_or_default());
+    }
+}
 
 fn judge<C: Serialize + std::fmt::Debug>(id: &str, sub: &str, case: &C, v: Verdict) {
+    DECODED.fetch_add(1, Ordering::Relaxed);
     if v.harness_error.is_some() {
+        HARNESS_ERRORS.fetch_add(1, Ordering::Relaxed);
+        return;
+    }
+    if v.nontrivial {
+        let n = NONTRIVIAL.fetch_add(1, Ordering::Relaxed);
+        if n < 400 && n % 100 == 0 {
+            if let Ok(mut s) = SAMPLES.lock() {
+                s.push(trunc(&format!("{case:?}"), 300));
+            }
+        }
+    }
+    if let Ok(mut c) = CLASSES.lock() {
+        for k in &v.classes {
+            *c.entry(k.clone()).or_insert(0) += 1;
+        }
+        for (k, n) in &v.counters {
+            *c.entry(k.clone()).or_insert(0) += *n;
+        }
+    }
+    if v.fails.is_empty() {
         return;
     }
     let known = load_known_findings();
     for f in &v.fails {
         if known.iter().any(|k| k.property == id && k.status == "known" && k.signature == f.sig) {
+            KNOWN_HITS.fetch_add(1, Ordering::Relaxed);
             continue;
         }
         let dir = format!("{VERIF_DIR}/replays/{id}/found");
@@ -30,6 +76,7 @@ fn judge<C: Serialize + std::fmt::Debug>(id: &str, sub: &str, case: &C, v: Verdi
 /// Run one fuzz input for (property, sub-check). Unknown pairs are ignored.
 pub fn one(id: &str, sub: &str, data: &[u8]) {
     install_panic_hook_once();
+    EXECS.fetch_add(1, Ordering::Relaxed);
     match (id, sub) {
         ("C05", "inbound") => {
             if let Some(c) = case_from_bytes(&props::c05::inbound_case(), data) {
@@ -44,7 +91,7 @@ pub fn one(id: &str, sub: &str, data: &[u8]) {
             }
         }
         ("C07", "corrupt") => {
-            if let Some(c) = case_from_bytes(&props::c07::case(), data) {
+            if let Some(c) = case_from_bytes_tail(&props::c07::case(), data, 1 << 20) {
                 let v = guarded(id, sub, &c, props::c07::check);
                 judge(id, sub, &c, v);
             }
@@ -68,13 +115,13 @@ pub fn one(id: &str, sub: &str, data: &[u8]) {
             }
         }
         ("C06", "history") => {
-            if let Some(c) = case_from_bytes(&props::c06::case(24), data) {
+            if let Some(c) = case_from_bytes_tail(&props::c06::case(24), data, 1 << 20) {
                 let v = guarded(id, sub, &c, props::c06::check);
                 judge(id, sub, &c, v);
             }
         }
         ("C02", "engine") => {
-            if let Some(c) = case_from_bytes(&props::c02::case(60), data) {
+            if let Some(c) = case_from_bytes_tail(&props::c02::case(60), data, 1 << 20) {
                 let v = guarded(id, sub, &c, props::c02::check);
                 judge(id, sub, &c, v);
             }
@@ -102,5 +149,10 @@ fn guarded<C>(id: &str, sub: &str, case: &C, f: fn(&C) -> Verdict) -> Verdict {
 
 fn install_panic_hook_once() {
     static ONCE: std::sync::Once = std::sync::Once::new();
-    ONCE.call_once(install_panic_hook);
+    ONCE.call_once(|| {
+        install_panic_hook();
+        unsafe {
+            libc::atexit(write_stats);
+        }
+    });
 }
